@@ -70,6 +70,14 @@ def run(ck: Checker, prog: Program, tier: str):
     from . import c01
     with ck.borrow(c01, "C04.R3+"):
         ck.guard(c01._body, ck, prog, "processing.traditional_hvsr_processing")
+    # "orienting the sensor to a": the orientation target a caller constructs the preprocessing settings with is the one that
+    # is applied (constructor delivery, rule of C15); the diffuse-field combination is the sum of both horizontal densities
+    # (rule of C17) - with one horizontal counted twice it depends on the sensor orientation
+    from . import c15, c17
+    with ck.borrow(c15, "C04.R1+"):
+        ck.guard(c15.check_constructors, ck, prog, [prog.cls(cname) for cname in ("Settings", "PreProcessingSettings", "HvsrPreProcessingSettings", "PsdPreProcessingSettings")])
+    with ck.borrow(c17, "C04.R3+"):
+        ck.guard(c17._r3, ck, prog)
 
 
 INVARIANT_FAMILIES = {
